@@ -29,6 +29,10 @@ type c19Field struct {
 	Toks []tagTok `json:"toks"`
 	Form int      `json:"form"`          // 0 whole tag, 1 parser:"..."
 	Raw  string   `json:"raw,omitempty"` // if set: the tag text verbatim (raw soup incl. NUL etc.)
+	// Blank: a tag that is not empty but holds no token (blanks, a comment).
+	Blank string `json:"blank,omitempty"`
+	// Name: field name (default F<i>); Pos / EndPos / Tokens are special to the library.
+	Name string `json:"name,omitempty"`
 }
 
 type c19Case struct {
@@ -363,6 +367,9 @@ func c19Type(c *c19Case) reflect.Type {
 		if text == "" {
 			text = renderToks(f.Toks)
 		}
+		if f.Blank != "" {
+			text = f.Blank
+		}
 		tag := reflect.StructTag(text)
 		if f.Form == 1 {
 			tag = reflect.StructTag("parser:" + strconv.Quote(text))
@@ -371,7 +378,11 @@ func c19Type(c *c19Case) reflect.Type {
 		if !ok {
 			ft = fieldTypePool["string"]
 		}
-		sf = append(sf, reflect.StructField{Name: fmt.Sprintf("F%d", i), Type: ft, Tag: tag})
+		name := fmt.Sprintf("F%d", i)
+		if f.Name != "" {
+			name = f.Name
+		}
+		sf = append(sf, reflect.StructField{Name: name, Type: ft, Tag: tag})
 	}
 	return reflect.StructOf(sf)
 }
@@ -395,6 +406,13 @@ func checkC19(c *c19Case, r *vstat.Run) outcome {
 	switch {
 	case c.Grammar != nil:
 		expect = tagValid
+		if lr, _ := c.Grammar.LeftRecursive(); lr {
+			expect, reason = tagMalformed, "left-recursive system"
+		}
+		if r != nil && c.Origin == "recsys" {
+			r.Journal(c, "Build of a generated recursive system")
+			defer r.JournalDone()
+		}
 		pmsg = guard(func() {
 			b, err := gram.Build(c.Grammar)
 			buildErr, built = err, b != nil && err == nil
@@ -563,7 +581,10 @@ func describeC19(c *c19Case) string {
 		if text == "" {
 			text = renderToks(f.Toks)
 		}
-		fmt.Fprintf(&sb, "  F%d %s form=%d tag %q\n", i, f.Type, f.Form, text)
+		if f.Blank != "" {
+			text = f.Blank
+		}
+		fmt.Fprintf(&sb, "  F%d %s %s form=%d tag %q\n", i, f.Name, f.Type, f.Form, text)
 	}
 	return sb.String()
 }
@@ -664,6 +685,24 @@ func splitFields(t *rapid.T, toks []tagTok, simple bool) []c19Field {
 			ft = rapid.SampledFrom(names).Draw(t, "oddtype")
 		}
 		fields = append(fields, c19Field{Type: ft, Toks: append([]tagTok(nil), chunk...), Form: rapid.IntRange(0, 1).Draw(t, "form")})
+		if rapid.IntRange(0, 5).Draw(t, "blank") == 0 {
+			// a field whose tag is not empty but holds no token: it contributes nothing to the grammar
+			fields = append(fields, c19Field{Type: "string", Blank: rapid.SampledFrom([]string{" ", "  \t", "/* note */", "// note"}).Draw(t, "blanktext"), Form: rapid.IntRange(0, 1).Draw(t, "bform")})
+		}
+	}
+	// the library treats fields called Pos, EndPos and Tokens specially; any field may carry such a name
+	usedNames := map[string]bool{}
+	for i := range fields {
+		if rapid.IntRange(0, 7).Draw(t, "special") == 0 {
+			n := rapid.SampledFrom([]string{"Tokens", "Pos", "EndPos"}).Draw(t, "specialname")
+			if !usedNames[n] {
+				usedNames[n] = true
+				fields[i].Name = n
+				if !simple && rapid.Bool().Draw(t, "specialtype") {
+					fields[i].Type = rapid.SampledFrom(names).Draw(t, "specialtypename")
+				}
+			}
+		}
 	}
 	return fields
 }
@@ -712,6 +751,9 @@ func propC19(t *rapid.T, r *vstat.Run) {
 			default: // no edit: a valid grammar in token form
 			}
 			c.Fields = splitFields(t, toks, rapid.IntRange(0, 3).Draw(t, "simple") > 0)
+		case k == 13:
+			c.Origin = "recsys"
+			c.Grammar, _ = gram.GenRecSystem(t)
 		case k <= 14:
 			c.Origin = "valid"
 			c.Grammar = gram.GenGrammar(t, gram.GenOpts{MaxProds: 4, MaxDepth: 3, TrapPercent: 10, PosStyles: true, MixedUnion: true, Profiles: true})
